@@ -173,6 +173,25 @@ def run_case(i, rng, tier):
         except Exception as e:  # noqa: BLE001
             failures.append(C.fail(None, "folding the partials with += raised %s: %s" % (type(e).__name__, str(e)[:200]), **wit))
 
+    # the reduced aggregators stay live: further data filled into the whole, the + reduction and the += fold
+    # must keep them equal (an accumulator goes on being incremented after a combine)
+    if k >= 2 and not failures:
+        more = S.gen_stream(rng, sp, rng.randint(1, 3), {"nonpos_p": 0.0})
+        try:
+            targets = [("whole", whole), ("reduce(+)", red)] + ([("+= fold", acc)] if "acc" in dir() else [])
+            for _, t_ in targets:
+                for r_, w_ in more:
+                    t_.fill(r_, w_)
+            ref_obs = O.observe(whole)
+            sc2 = O.scale_of(stream + more)
+            for nm_, t_ in targets[1:]:
+                d = O.diff(ref_obs, O.observe(t_), sc2)
+                counters["fill_after_reduce_checked"] = counters.get("fill_after_reduce_checked", 0) + 1
+                if d:
+                    failures.append(C.fail(None, "after filling %d more records the %s result differs from the whole: %s" % (len(more), nm_, C.fmt_diff(d)), more=C.stream_json(more), **wit))
+        except Exception as e:  # noqa: BLE001
+            failures.append(C.fail(None, "filling after the reduction raised %s: %s" % (type(e).__name__, str(e)[:200]), **wit))
+
     # identity, commutativity, associativity on the partials
     a = partials[0]
     a_obs = O.observe(a)
